@@ -130,6 +130,16 @@ CHECKS = {
         note='Integer operands of add/sub/jacobi are little-endian byte strings (the tool\'s convention). Inline forms exist for 24 of 27 transforms. `reverse` on decimals is not asserted. '
              'Three genuine defects were repaired by fix: commits.',
         design='5/C14'),
+    'C15': dict(
+        technique='structure-aware property-based fuzzing (Hypothesis) of the sanitizer-built binaries and REPL, coverage-guided libFuzzer targets with in-target oracles, and a valgrind memcheck sample',
+        text='(a) btcdeb, btcc and tap built with AddressSanitizer + UBSan (bounds, null, integer division, unreachable/return) are run on valid inputs of the other checks and on mutations of them '
+             '(truncation, byte/count/compact-size corruption, out-of-range vout and --select, empty and over-long option values, junk expressions, nesting to 20000 levels, 100 kB arguments, -z operands); '
+             '(b) generated REPL command sequences over step/rewind/exec/tf/print/stack/altstack/vfexec/help with adversarial arguments on ptys; (c) five libFuzzer targets (transaction codec round trip, value '
+             'parser, step/rewind/continue session invariants, --tx/--txin session, option parsers) with the oracle inside the target; (d) a valgrind memcheck sample of the plain build. Any signal, terminate, '
+             'failed assertion, sanitizer or memcheck report is a violation; clean rejection is success; deadlines are inconclusive.',
+        note='Signed-overflow / shift UB and leaks are outside the statement. MSan is unusable here (no instrumented libstdc++): uninitialised reads are covered by the valgrind sample only. '
+             'Findings are counted by root cause; seven crash root causes found here and two found through C12/C08 were repaired by fix: commits.',
+        design='5/C15'),
     'C16': dict(
         technique='differential property-based testing (Hypothesis) of exec against the reference interpreter started from the observed pre-state',
         text='Generated (session, k steps, token list) cases: the harness performs the k steps, then Instance::eval on the tokens, then continues to the end. The reference interpreter '
